@@ -182,7 +182,7 @@ class Prop:
                 role[o.get("idx")] = "initiator"
             if e["k"] == "refinit":
                 role[o.get("idx")] = "responder"
-            if fresh is not None and any(t["i"] == fresh for t in (o.get("tx") or [])) and sub - sent:
+            if fresh is not None and sub - sent:
                 return "held-packets-not-delivered-by-new-session"
             passed = [t for t in (o.get("tx") or []) if t["c"] > REKEY] if e["k"] != "tunerr" else []
             due = bool(passed) or bool(sub - sent)
